@@ -19,6 +19,7 @@
 #include <fcppt/container/bitfield/object.hpp>
 #include <fcppt/container/bitfield/operators.hpp>
 #include <fcppt/container/bitfield/std_hash.hpp>
+#include <fcppt/container/bitfield/underlying_value.hpp>
 
 #include <array>
 #include <cstdint>
@@ -290,6 +291,23 @@ template <class E, class W, int N> struct inst
       return;
     }
     BF const c = canon(x);
+    // underlying_value (single storage word only): bit i is enumerator i (test/container/bitfield/underlying_value.cpp),
+    // and, being an observer of a set, it cannot tell two bitfields with the same members apart
+    if constexpr (words == 1)
+    {
+      unsigned long long const uv = fcppt::container::bitfield::underlying_value(r);
+      for (int i = 0; i < N; ++i)
+        if (((uv >> i) & 1ULL) != (x.count(i) ? 1ULL : 0ULL))
+        {
+          vrt::fail(std::string(fam) + ":underlying_value_bit",
+                    vrt::fmt("%s = %s: underlying_value 0x%llx, bit %d does not say whether enumerator %d is a member", what.c_str(), show(x).c_str(), uv, i, i));
+          break;
+        }
+      unsigned long long const uc = fcppt::container::bitfield::underlying_value(c);
+      if (uv != uc)
+        vrt::fail(std::string(fam) + ":underlying_value_same_members",
+                  vrt::fmt("%s = %s: underlying_value 0x%llx differs from 0x%llx of the same set built with set()", what.c_str(), show(x).c_str(), uv, uc));
+    }
     bool const eq = (r == c) && (c == r) && !(r != c) && !(c != r);
     bool const hs = h1(r) == h1(c) && h2(r) == h2(c);
     bool const sb = sub(r, c) && sub(c, r);
